@@ -132,6 +132,100 @@ theorem memo_stable (L : Nat) (reqs : List (Nat × Str)) (i j : Nat) (q : Nat ×
   have hb := hserved j q b h2 r2
   rw [ha] at hb; cases hb; rfl
 
+/-! ## the engine's life: limits that shrink at connect -/
+
+/-- what "respects the limits the dialect holds in state `st`" means for one output -/
+def Bounded (st : DState) (op : LOp) (out : LOut) : Prop :=
+  match op, out with
+  | .label _, .name r => 6 ≤ effLabel st → r.length ≤ st.maxIdent
+  | .fmtIndex true _, .name r => 8 ≤ effMax st.maxIndex st.maxIdent → r.length ≤ effMax st.maxIndex st.maxIdent
+  | .fmtConstraint true _, .name r =>
+    8 ≤ effMax st.maxConstraint st.maxIdent → r.length ≤ effMax st.maxConstraint st.maxIdent
+  | .fmtIndex false _, .name r => r.length ≤ st.maxIdent
+  | .fmtConstraint false _, .name r => r.length ≤ st.maxIdent
+  | _, _ => True
+
+/-- one formatting call in a state whose label length fits: the output is bounded by the
+    limits of THAT state (the call reads them live) and the state is unchanged -/
+theorem step_bounded (md5 : Str → Str) (hmd5 : ∀ x, (md5 x).length = 32) (st : DState)
+    (hok : LabelOK st) (op : LOp) (hop : ∀ lim, op ≠ .connect lim) :
+    (lifeStep md5 st op).1 = st ∧ Bounded st op (lifeStep md5 st op).2 := by
+  refine ⟨lifeStep_fmt_state md5 st op hop, ?_⟩
+  cases op with
+  | connect lim => exact absurd rfl (hop lim)
+  | label n =>
+    simp only [lifeStep, Bounded]
+    intro h6
+    exact Nat.le_trans (single_label_len _ h6 n) hok
+  | fmtIndex t n =>
+    cases t with
+    | true =>
+      simp only [lifeStep]
+      cases h : truncMaxlen md5 true n (effMax st.maxIndex st.maxIdent) st.maxIdent with
+      | none => simp [Bounded]
+      | some r =>
+        simp only [Bounded]
+        intro h8
+        exact truncated_len_le_max md5 hmd5 n _ _ h8 r h
+    | false =>
+      simp only [lifeStep]
+      cases h : truncMaxlen md5 false n (effMax st.maxIndex st.maxIdent) st.maxIdent with
+      | none => simp [Bounded]
+      | some r => simp only [Bounded]; exact (explicit_name md5 n _ _ r h).2
+  | fmtConstraint t n =>
+    cases t with
+    | true =>
+      simp only [lifeStep]
+      cases h : truncMaxlen md5 true n (effMax st.maxConstraint st.maxIdent) st.maxIdent with
+      | none => simp [Bounded]
+      | some r =>
+        simp only [Bounded]
+        intro h8
+        exact truncated_len_le_max md5 hmd5 n _ _ h8 r h
+    | false =>
+      simp only [lifeStep]
+      cases h : truncMaxlen md5 false n (effMax st.maxConstraint st.maxIdent) st.maxIdent with
+      | none => simp [Bounded]
+      | some r => simp only [Bounded]; exact (explicit_name md5 n _ _ r h).2
+
+/-- **names_after_connect_respect_new_limit** — after a successful `initialize()` that set
+    the identifier limit to what the server reports (possibly smaller than the class-level
+    value, whatever was formatted before), every label, index name and constraint name
+    emitted by any sequence of formatting calls up to the next connect is bounded by the
+    NEW limits, and `label_length` is known to fit them (else the connect raised
+    `ArgumentError`). -/
+theorem names_after_connect_respect_new_limit (md5 : Str → Str) (hmd5 : ∀ x, (md5 x).length = 32)
+    (st : DState) (lim : Option Nat) (hc : (connectStep st lim).2 = .connected) :
+    (connectStep st lim).1.maxIdent = newMaxIdent st lim ∧
+    ∀ (ops : List LOp), (∀ op ∈ ops, ∀ l, op ≠ .connect l) →
+      ∀ e ∈ lifeRun md5 (connectStep st lim).1 ops,
+        e.1 = (connectStep st lim).1 ∧ Bounded (connectStep st lim).1 e.2.1 e.2.2 := by
+  have hok := connect_ok_labelOK st lim hc
+  refine ⟨?_, ?_⟩
+  · unfold connectStep; cases st.labelLength <;> simp <;> split <;> rfl
+  · generalize (connectStep st lim).1 = s1 at hok ⊢
+    intro ops
+    induction ops with
+    | nil => intro _ e he; simp [lifeRun] at he
+    | cons op rest ih =>
+      intro hops e he
+      have hop := hops op (by simp)
+      obtain ⟨h1, h2⟩ := step_bounded md5 hmd5 s1 hok op hop
+      simp only [lifeRun, List.mem_cons] at he
+      rcases he with he | he
+      · subst he
+        exact ⟨h1, h2⟩
+      · rw [h1] at he
+        exact ih (fun o ho => hops o (by simp [ho])) e he
+
+/-- a shrinking limit with a too-large `label_length` is refused (Oracle < 12.2 style:
+    class limit 128, server limit 30, label_length 40) -/
+example : (connectStep ⟨128, false, some 40, none, none⟩ (some 30)).2 = .argumentError := by
+  decide +kernel
+example : (lifeRun (fun _ => List.replicate 32 48) ⟨128, false, some 20, none, none⟩
+    [.fmtIndex true (List.replicate 61 97), .connect (some 30), .fmtIndex true (List.replicate 61 97)]).map
+      (fun e => match e.2.2 with | .name r => r.length | _ => 0) = [61, 0, 27] := by decide +kernel
+
 /-! ## naming conventions feed the truncation -/
 
 /-- whatever a convention expands to, the rendered constraint name is bounded -/
